@@ -182,6 +182,11 @@ def scale_specs(tier, seed):
     n = 160 if tier == "quick" else 1500
     wins = ["kaiser", "hann", "rect", "flattop", "nuttall"]
     specs = []
+    # segment counts just above the NumPy kernels' internal block sizes (8192 / 16384 / 32768), not multiples of them,
+    # and start indices beyond 2^17: block-wise reductions and index arithmetic must not depend on the block layout
+    for (K, order, mode) in ((8192 + 809, 2, "csd"), (16384 + 1201, 1, "auto"), (32768 + 333, 0, "csd"), (32768 + 77, -1, "auto")):
+        specs.append(dict(seed=rnd.randrange(2 ** 31), N=140000, L=rnd.choice([8, 12, 16]), K=K, order=order, mode=mode, data="white",
+                          win="hann", omega=0.9 + 0.3 * rnd.random(), cuda=False, starts="random"))
     for i in range(n):
         N = rnd.choice([256, 1000, 4096])
         L = rnd.choice([1, 2, 3, 7, 16, 33, 100, 255, N // 4, N // 2, N]) if i % 3 else rnd.randint(1, min(N, 1500))
@@ -283,6 +288,7 @@ def run(tier: str) -> int:
         os.environ.pop("NUMBA_ENABLE_CUDASIM", None)
     kept = [t for t in trs if t["ev"] and t["c"]["budget"] <= 64]
     V.set("scale_traces_dropped_ill_conditioned", len(trs) - len(kept))
+    V.set("scale_traces_with_K_above_8192", sum(1 for t in kept if t["meta"]["K"] > 8192))
     verdicts, tres = traces.validate("KernelTrace", f"{PID}_trace", kept)
     V.model(tres, "KernelTrace.tla (recorded calls at scale)")
     V.add("traces_validated_against_impl", len(kept))
